@@ -187,13 +187,17 @@ def oracle(ctx, full):
             cases.append((dll, n))
     if not big:
         cases = rng.sample(cases, 8) + [('j1939-21', 3), ('j1939-21', 10)]
-    for dll, n in cases:
+    # more cycles than the stack has broadcast sessions (J1939-22: 4): every cycle of a long-running DM1 source arrives
+    cases += [('j1939-22', 15, 7), ('j1939-21', 3, 7)]
+    for case in cases:
+        dll, n = case[:2]
+        ncyc = case[2] if len(case) > 2 else 4
         # a J1939-21 BAM with n codes needs ceil((2+4n)/7) * 50 ms; choose a cycle that leaves room
         dur = ((2 + 4 * n + 6) // 7 + 2) * 50_000 if dll == 'j1939-21' else ((2 + 4 * n) // 60 + 3) * 10_000
         cycle = max(100_000, dur + 100_000)
         evals += 1
-        distinct.add((dll, n))
-        r = e2e_case(rng, dll, n, cycle, 4, 3)
+        distinct.add((dll, n, ncyc))
+        r = e2e_case(rng, dll, n, cycle, ncyc, ncyc - 1)
         if r:
             findings.append(dict(signature=dict(family='dm1-e2e', dll=dll), what=r, case=dict(dll=dll, n=n)))
             break
